@@ -2,6 +2,7 @@ package rules
 
 import (
 	"fmt"
+	"go/token"
 	"go/types"
 	"sort"
 	"strings"
@@ -378,6 +379,52 @@ func R17(p *core.Prog) *core.Result {
 
 	r.Floor("globals", len(glist), 200)
 	r.Floor("singleton_types", singletons, 10)
+	// CAPTURED-ESCAPE: an option value (Folders(...), Unfolders(...)) is a closure over maps it built once. The
+	// same option value may be passed to any number of constructors, so the closure only READS its captured
+	// state: it never stores a captured map/slice/pointer into the options struct it fills in (later options
+	// would then write into the shared map, and two instances built from the same option would share it).
+	{
+		n := 0
+		for _, f := range p.ModFuncs() {
+			pk := core.FuncPkg(f)
+			if pk == nil || pk.Name() != "gotype" || len(f.FreeVars) == 0 || len(f.Params) != 1 {
+				continue
+			}
+			pn := namedOf(f.Params[0].Type())
+			if pn == nil || !strings.Contains(strings.ToLower(pn.Obj().Name()), "options") {
+				continue
+			}
+			n++
+			bad := ""
+			for _, b := range f.Blocks {
+				for _, in := range b.Instrs {
+					st, ok := in.(*ssa.Store)
+					if !ok || !rootedAt(st.Addr, f.Params[0]) {
+						continue
+					}
+					switch st.Val.Type().Underlying().(type) {
+					case *types.Map, *types.Slice, *types.Pointer, *types.Chan:
+					default:
+						continue
+					}
+					v := st.Val
+					if ld, ok := v.(*ssa.UnOp); ok && ld.Op == token.MUL {
+						v = ld.X
+					}
+					if fv, ok := v.(*ssa.FreeVar); ok {
+						bad = "stores its captured " + fv.Name() + " into the options at " + p.Pos(st.Pos())
+					}
+				}
+			}
+			fkey := core.FuncKey(f)
+			if bad == "" {
+				r.Ok(".CAPTURED-ESCAPE", p.Pos(f.Pos()), fkey+": the option closure copies out of its captured state, it does not hand it over by reference")
+			} else {
+				r.Fail(".CAPTURED-ESCAPE", fkey+"|capture", p.Pos(f.Pos()), fkey+" "+bad+": the option value can be used for several constructors; a later option then merges into the shared map, and instances built from the same option share mutable state", "")
+			}
+		}
+		r.Floor("option_closures", n, 2)
+	}
 	return r
 }
 
